@@ -342,6 +342,45 @@ def rc_priv(rc):
     return {"c": list(rc._columns), "d": [[enc(x) for x in getattr(rc, n)] for n in rc._columns]}
 
 
+# ----------------------------------------------------------------------------- DataCombination whose lists change in place
+
+class RealComb:
+    """The caller's list of lists and the DataCombination constructed from it."""
+
+    def __init__(self, init):
+        from scinumtools import DataCombination
+        self.lists = [list(l) for l in init]
+        self.snap = [list(l) for l in init]
+        self.dc = DataCombination(self.lists)
+
+    def apply(self, op):
+        o = op["op"]
+        if o == "append":
+            self.lists[op["l"] - 1].append(op["v"])
+        elif o == "pop":
+            self.lists[op["l"] - 1].pop()
+        elif o == "extend":
+            self.lists[op["l"] - 1].extend(op["vs"])
+        elif o == "addlist":
+            self.lists.append(list(op["vs"]))
+        else:
+            raise C.MachineryError("unknown op " + o)
+        return False
+
+    def read(self):
+        try:
+            return {"keys": [list(k) for k in self.dc.keys()], "values": [list(v) for v in self.dc.values()],
+                    "items": [[list(k), list(v)] for k, v in self.dc.items()]}
+        except Exception as e:
+            return {"raised": repr(e)[:200]}
+
+    def event(self):
+        r = self.read()
+        ev = {"ev": "comb", "lists": [list(l) for l in self.lists], "snap": self.snap, "raised": "raised" in r,
+              "keys": r.get("keys", []), "values": r.get("values", []), "items": r.get("items", [])}
+        return ev
+
+
 # ----------------------------------------------------------------------------- model configuration
 
 def known_open():
@@ -363,7 +402,7 @@ RC_KIND = {"rcl": ("list", ["a", "b", "c"], {"a": "int", "b": "str", "c": "int"}
            "rcn": ("list", [], {"a": "int", "b": "str", "c": "int"})}
 
 
-ALL_STATEFUL = ["pt", "pl", "rcl", "rca", "rct", "rcu", "rcn"]
+ALL_STATEFUL = ["pt", "pl", "rcl", "rca", "rct", "rcu", "rcn", "cmb"]
 
 
 def cfg_module(table, machines, init="{<<>>}", slim_sort=False):
@@ -412,6 +451,7 @@ MCShortVals == {'{<<7>>, <<7, 8, 9>>}' if t else '{}'}
 MCProbeKeys == {C.tla_str(set(PT_PROBES))}
 MCAxSize == <<4, 2>>
 MCCombVals == {{1, 2}}
+MCCombInits == {{<< <<1, 2>>, <<1>> >>, << <<1>> >>}}
 MCKnownDevs == {'{"' + TAG_TRUNC + '"}' if dev_on() else '{}'}
 MCFirstKeys == {{FIRSTKEYS}}
 MCFirstFlavs == {{FIRSTFLAVS}}
@@ -447,14 +487,15 @@ def cfg_text(table, depth, rows, thorough, invariants):
   CombVals <- MCCombVals
   CombMaxLists = 3
   CombMaxLen = 3
+  CombInits <- MCCombInits
 SPECIFICATION Spec
 {inv}
 CHECK_DEADLOCK FALSE
 """
 
 
-TABLE_INV = ["Refines", "PTSync", "SortRefines", "SortForms", "GridRefines", "CombRefines", "Emit"]
-HIST_INV = ["Refines", "PTSync", "AtomicPT", "AtomicRC", "Emit"]     # no ill-formed operations here: calls are atomic
+TABLE_INV = ["Refines", "PTSync", "SortRefines", "SortForms", "GridRefines", "CombRefines", "CombLiveRefines", "Emit"]
+HIST_INV = ["Refines", "PTSync", "CombLiveRefines", "AtomicPT", "AtomicRC", "Emit"]     # no ill-formed operations here: calls are atomic
 
 
 ALLK = ["k1", "k2", "k3"]
@@ -484,11 +525,15 @@ def new_real(w, first):
         return pt_new(PT_SETTINGS, PT_KEYNAME, first.get("init") or [])
     if w == "pl":
         return pl_new(PT_SETTINGS)
+    if w == "cmb":
+        return RealComb(first["init"])
     mode, cols, kindof = RC_KIND[w]
     return rc_new(mode, cols, kindof)
 
 
 def apply_real(w, obj, op):
+    if w == "cmb":
+        return obj.apply(op)
     return pt_apply(obj, op) if w == "pt" else pl_apply(obj, op) if w == "pl" else rc_apply(obj, op)
 
 
@@ -502,6 +547,8 @@ def observe_real(w, obj, full):
 
 
 def _observe_real(w, obj, full):
+    if w == "cmb":
+        return obj.read()
     if w == "pt":
         return pt_obs(obj, PT_PROBES, PT_NPOS, full)
     if w == "pl":
@@ -510,6 +557,8 @@ def _observe_real(w, obj, full):
 
 
 def diff_fields(exp, got):
+    if "alt" in exp:                  # the observation as a whole must be one of the admissible ones
+        return [] if any(a == got for a in exp["alt"]) else ["keys/values/items"]
     return sorted(f for f in got if f not in exp or exp[f] != got[f])
 
 
@@ -599,10 +648,10 @@ def comb_observe(lists):
     from scinumtools import DataCombination
     try:
         dc = DataCombination([list(l) for l in lists])
-        return {"ev": "comb", "lists": lists, "keys": [list(k) for k in dc.keys()], "values": [list(v) for v in dc.values()],
+        return {"ev": "comb", "lists": lists, "snap": lists, "keys": [list(k) for k in dc.keys()], "values": [list(v) for v in dc.values()],
                 "items": [[list(k), list(v)] for k, v in dc.items()], "raised": False}
     except Exception as e:
-        return {"ev": "comb", "lists": lists, "keys": [], "values": [], "items": [], "raised": True, "exception": repr(e)[:200]}
+        return {"ev": "comb", "lists": lists, "snap": lists, "keys": [], "values": [], "items": [], "raised": True, "exception": repr(e)[:200]}
 
 
 def replay_static(rec):
@@ -651,6 +700,13 @@ def record(plan):
         return [grid_observe(plan["n"], plan["nc"], plan["tr"], plan["kind"])]
     elif o == "comb":
         return [comb_observe(plan["lists"])]
+    elif o == "combm":                # construct, read, change the caller's lists in place, read again
+        rcb = RealComb(plan["init"])
+        evs = [dict(rcb.event(), init=plan["init"], mut=plan["ops"])]
+        for op in plan["ops"]:
+            rcb.apply(op)
+            evs.append(rcb.event())
+        return evs
     first = {k: v for k, v in plan.items() if k != "ops"}
     priv0 = priv
 
@@ -759,6 +815,31 @@ def rand_plan_rc(rnd, maxops):
             "kindof": kindof, "rows": rows, "ops": ops}
 
 
+def rand_plan_combm(rnd):
+    init = [[rnd.randint(0, 3) for _ in range(rnd.randint(0, 3))] for _ in range(rnd.randint(0, 3))]
+    lens = [len(l) for l in init]
+    ops = []
+    for _ in range(rnd.randint(1, 12)):
+        x = rnd.random()
+        cand = [k for k, n in enumerate(lens)]
+        if x < 0.3 and [k for k in cand if lens[k] < 4]:
+            k = rnd.choice([k for k in cand if lens[k] < 4])
+            ops.append({"op": "append", "l": k + 1, "v": rnd.randint(0, 3)})
+            lens[k] += 1
+        elif x < 0.6 and [k for k in cand if lens[k] > 0]:
+            k = rnd.choice([k for k in cand if lens[k] > 0])
+            ops.append({"op": "pop", "l": k + 1})
+            lens[k] -= 1
+        elif x < 0.8 and [k for k in cand if lens[k] <= 2]:
+            k = rnd.choice([k for k in cand if lens[k] <= 2])
+            ops.append({"op": "extend", "l": k + 1, "vs": [rnd.randint(0, 3), rnd.randint(0, 3)]})
+            lens[k] += 2
+        elif len(lens) < 4:
+            ops.append({"op": "addlist", "vs": [rnd.randint(0, 3) for _ in range(rnd.randint(0, 2))]})
+            lens.append(len(ops[-1]["vs"]))
+    return {"obj": "combm", "init": init, "ops": ops}
+
+
 def rand_plan_comb(rnd):
     return {"obj": "comb", "lists": [[rnd.randint(0, 3) for _ in range(rnd.randint(0, 4))] for _ in range(rnd.randint(0, 4))]}
 
@@ -820,6 +901,8 @@ def validate(sub, traces, workers=None):
 
 def plan_of(trace):
     ev = trace[0]
+    if ev["ev"] == "comb" and "mut" in ev:
+        return {"obj": "combm", "init": ev["init"], "ops": ev["mut"]}
     if ev["ev"] in ("grid", "comb"):
         return {"obj": ev["ev"], **{k: ev[k] for k in ("n", "nc", "tr", "kind", "lists") if k in ev}}
     p = {k: v for k, v in ev.items() if k not in ("ev", "err", "obs", "priv")}
@@ -910,7 +993,8 @@ def run(replay=None):
     # ---- 3a: record seeded random executions of the real classes (before any thread exists: pmap forks)
     ntr = (1500, 500, 1500, 500) if thorough else (250, 80, 300, 100)
     plans = [rand_plan_pt(rnd, 40) for _ in range(ntr[0])] + [rand_plan_pl(rnd, 30) for _ in range(ntr[1])] \
-        + [rand_plan_rc(rnd, 40) for _ in range(ntr[2])] + [rand_plan_comb(rnd) for _ in range(ntr[3])]
+        + [rand_plan_rc(rnd, 40) for _ in range(ntr[2])] + [rand_plan_comb(rnd) for _ in range(ntr[3])] \
+        + [rand_plan_combm(rnd) for _ in range(ntr[3])]
     gmax, cmax = (60, 12) if thorough else (30, 8)
     plans += [{"obj": "grid", "n": n, "nc": nc, "tr": tr, "kind": kind} for n in range(gmax + 1) for nc in range(1, cmax + 1)
               for tr in (False, True) for kind in (("list", "dict") if n <= 12 else ("list",))]
